@@ -2,9 +2,11 @@
 """run the registered checks against the seeded property-breaking changes kept under /verif/seeded/<prop>/<k>/.
 Each change is applied to /repo TEMPORARILY (git apply), the check of its property is run (evidence and replay files go to a
 scratch directory so that the committed evidence is not overwritten), and the change is undone (git checkout -- .).
-usage: tools/seed_eval.py [Cxx[/k]] ...      (default: everything under seeded/)
-writes seeded/<prop>/<k>/result.json and prints one line per change."""
-import json, os, subprocess, sys, tempfile, shutil, time
+usage: tools/seed_eval.py [--jobs N] [Cxx[/k]] ...      (default: everything under seeded/)
+writes seeded/<prop>/<k>/result.json and prints one line per change.
+--jobs N (N > 1): the same evaluation in N scratch git worktrees of /repo's HEAD under /tmp (VERIF_REPO / VERIF_BUILD_DIR point the
+check at the worktree; /repo itself is not touched; the worktrees are removed afterwards). /repo must be clean (HEAD == working tree)."""
+import json, os, subprocess, sys, tempfile, shutil, time, concurrent.futures as cf
 ROOT = os.path.dirname(os.path.dirname(os.path.abspath(__file__)))
 REPO = "/repo"
 
@@ -13,8 +15,70 @@ def sh(cmd, **kw):
     return subprocess.run(cmd, capture_output=True, text=True, **kw)
 
 
+def eval_one(repo, scratch, prop, k, d, extra_env):
+    meta = json.load(open(os.path.join(d, "meta.json"))) if os.path.exists(os.path.join(d, "meta.json")) else {}
+    props = meta.get("check_properties") or [prop]
+    a = sh(["git", "-C", repo, "apply", os.path.join(d, "patch.diff")])
+    if a.returncode != 0:
+        return (prop, k, "noapply", f"{prop}/{k}: patch does not apply: {a.stderr.strip()[:200]}")
+    res = {}
+    try:
+        for p in props:
+            t0 = time.time()
+            r = sh([os.path.join(ROOT, "check"), p, "--tier", "quick"],
+                   env=dict(os.environ, VERIF_EVIDENCE_DIR=os.path.join(scratch, "ev"), VERIF_REPLAY_DIR=os.path.join(scratch, "replay"), **extra_env))
+            viol = [l for l in r.stdout.splitlines() if l.startswith("VIOLATION")]
+            und = [l.strip() for l in r.stdout.splitlines() if "UNDECIDED" in l]
+            res[p] = {"exit": r.returncode, "violations": [v.split("replay=")[1].split("/")[-1] for v in viol], "undecided": und[:3],
+                      "seconds": round(time.time() - t0, 1)}
+            # which violations rest on a function some of whose proof hints could not be placed on the changed tree
+            wsk = []
+            for v in viol:
+                try:
+                    rj = json.load(open(v.split("replay=")[1].split(" ")[0]))
+                    if rj.get("proof_hints_skipped_because_their_anchor_statement_is_gone"): wsk.append(rj["obligation"])
+                except Exception:
+                    pass
+            if wsk: res[p]["violations_in_functions_with_skipped_hints"] = wsk
+    finally:
+        sh(["git", "-C", repo, "checkout", "--", "."])
+    caught = any(v["exit"] == 1 for v in res.values())
+    json.dump({"caught": caught, "checks": res}, open(os.path.join(d, "result.json"), "w"), indent=1)
+    return (prop, k, caught, ("CAUGHT " if caught else "MISSED ") + f"{prop}/{k} {meta.get('title', '')!r} " +
+            " ".join(f"{p}:exit{v['exit']}:{','.join(v['violations'])[:160]}" for p, v in res.items()))
+
+
+def parallel(todo, jobs):
+    top = tempfile.mkdtemp(prefix="seedeval_")
+    wts = []
+    try:
+        for i in range(jobs):
+            wt = os.path.join(top, f"wt{i}")
+            a = sh(["git", "-C", REPO, "worktree", "add", "--detach", wt, "HEAD"])
+            if a.returncode != 0: print(a.stderr); return []
+            wts.append(wt)
+        def work(i):
+            out = []
+            for prop, k, d in todo[i::jobs]:
+                sc = os.path.join(top, f"sc{i}")
+                r = eval_one(wts[i], sc, prop, k, d, {"VERIF_REPO": wts[i], "VERIF_BUILD_DIR": os.path.join(top, f"build{i}")})
+                print(r[3], flush=True); out.append(r)
+            return out
+        rows = []
+        with cf.ThreadPoolExecutor(max_workers=jobs) as ex:
+            for r in ex.map(work, range(jobs)): rows += r
+        return rows
+    finally:
+        for wt in wts: sh(["git", "-C", REPO, "worktree", "remove", "--force", wt])
+        sh(["git", "-C", REPO, "worktree", "prune"])
+        shutil.rmtree(top, ignore_errors=True)
+
+
 def main():
     sel = sys.argv[1:]
+    jobs = 1
+    if sel and sel[0] == "--jobs":
+        jobs = int(sel[1]); sel = sel[2:]
     base = os.path.join(ROOT, "seeded")
     todo = []
     for prop in sorted(os.listdir(base)):
@@ -27,6 +91,10 @@ def main():
             todo.append((prop, k, d))
     if sh(["git", "-C", REPO, "status", "--porcelain", "--untracked-files=no"]).stdout.strip():
         print("refusing: /repo has local modifications"); return 2
+    if jobs > 1:
+        rows = parallel(todo, jobs)
+        print(f"{sum(1 for r in rows if r[2] is True)}/{len(rows)} caught")
+        return 0
     scratch = tempfile.mkdtemp(prefix="seedeval_")
     rows = []
     try:
